@@ -84,13 +84,14 @@ def present(rec_full):
 
 
 def relate(kind, run_a, text_a, run_b, text_b, T=identity, eps=2, scope_all_a=False, with_bonds=False, with_hyd=False,
-           textcmp=False, epsc=1, meta=None, present=False, sc_filter=None):
+           textcmp=False, epsc=1, meta=None, present=False, sc_filter=None, roworder=False):
     rec_a, idx_a = observe.observe(run_a, text_a, with_input=False, all_groups=False)
     rec_b, idx_b = observe.observe(run_b, text_b, with_input=False, all_groups=False)
     remap = _remap_builder(idx_a, idx_b, T)
     rel = {"kind": kind, "ca": rec_a["confs"], "cb": rec_b["confs"], "A": _groups(rec_a, remap), "B": _groups(rec_b),
            "eps": eps, "epsc": epsc, "scope": [], "hasbonds": 0, "bondsA": [], "bondsB": [], "hashyd": 0, "hydA": [], "hydB": [],
-           "textcmp": 0, "textsame": 0, "presentA": [], "presentB": [], "scA": [], "scB": [], "meta": meta or {}}
+           "textcmp": 0, "textsame": 0, "presentA": [], "presentB": [], "scA": [], "scB": [], "rowcmp": 0, "rowsA": [], "rowsB": [],
+           "meta": meta or {}}
     if scope_all_a:
         rel["scope"] = sorted(remap(i) for i, r in enumerate(idx_a.recs) if r is not None)
     if with_bonds:
@@ -108,6 +109,25 @@ def relate(kind, run_a, text_a, run_b, text_b, T=identity, eps=2, scope_all_a=Fa
         rel["textcmp"] = 1
         rel["textsame"] = 1 if (run_a.pka_text is not None and run_b.pka_text is not None and
                                 pkaparse.strip_date(run_a.pka_text) == pkaparse.strip_date(run_b.pka_text)) else 0
+    if roworder and run_a.pka_text is not None and run_b.pka_text is not None:
+        # the order of the rows of the written file, as residue identities (input lines) in A's identifier space
+        rel["rowcmp"] = 1
+        for tag, run, idx, rm in (("rowsA", run_a, idx_a, remap), ("rowsB", run_b, idx_b, None)):
+            f = pkaparse.parse(run.pka_text)
+            pool = {}
+            for g in run.mol.conformations["AVR"].groups:
+                pool.setdefault(" ".join(g.label.split()), []).append(rm(idx.gid(g.atom)) if rm else idx.gid(g.atom))
+            rows = []
+            for sect in ("det_groups", "summary"):
+                used = {}
+                for x in f[sect]:
+                    lab = " ".join(x["label"].split())
+                    k = used.get(lab, 0)
+                    used[lab] = k + 1
+                    ids = pool.get(lab, [])
+                    rows.append(ids[k] if k < len(ids) else -2)
+                rows.append(-9)
+            rel[tag] = rows
     if present:
         for tag, run, idx, rm in (("presentA", run_a, idx_a, remap), ("presentB", run_b, idx_b, None)):
             conf = run.mol.conformations[run.mol.conformation_names[0]]
